@@ -112,6 +112,19 @@ def run(ctx):
             case = perturb(rng, case, info, modes=["unused", "invalid-vector", "duplicate", "rc-duplicate", "rc-duplicate",
                                                     "palindrome", "palindrome", "missing", "invalid-module", "same-object"])
             ctx.note("refusal:" + case["mode"])
+        if rng.random() < 0.2 and "mparts" in info:
+            # an undetermined base (N) inside a junction overhang: whatever the library makes of it, it makes the same of
+            # its lower-case spelling
+            m = rng.choice(case["mods"])
+            md = info["mparts"][m["oid"] - 1] if 1 <= m["oid"] <= len(info["mparts"]) else None
+            if md is not None:
+                o = md[rng.choice(["o5", "o5", "o3"])]
+                wdu = m["word"].upper()
+                p_ = (wdu + wdu).find(o)
+                if 0 <= p_ and len(o) >= 1:
+                    q_ = (p_ + rng.randrange(len(o))) % len(wdu)
+                    m["word"] = m["word"][:q_] + "N" + m["word"][q_ + 1:]
+                    ctx.note("N-in-overhang")
         mode = rng.choice(["lower", "per-record", "per-letter", "vector-lower", "modules-lower"])
         for i, e in enumerate([case["vector"]] + case["mods"]):
             if mode == "lower":
